@@ -24,22 +24,7 @@ class ExprFamily(Family):
         g = X.Gen(rng)
         for case in self.genf(g, rng, tier, n):
             if rng.random() < 0.12 and "env" not in case:
-                # the expression is ALSO part of a larger expression (sharing the very objects), and that
-                # one is evaluated first: composing or evaluating must not change what a
-                # sub-expression answers afterwards (the model only sees the sub-expression)
-                t = case["tree"]
-                other = g.tree(rng.choice([0, 1]), ["or", "and", "sub"])
-                j = rng.random()
-                if j < 0.45:
-                    ctx = {"op": rng.choice(["or", "and", "sub"]), "l": t, "r": other}
-                elif j < 0.6:
-                    ctx = {"op": rng.choice(["or", "and"]), "l": other, "r": t}
-                elif j < 0.8:
-                    ctx = {"op": "or", "l": {"op": "and", "l": t, "r": other}, "r": {"op": "and", "l": t, "r": g.leaf()}}
-                else:
-                    ctx = t                                   # the expression itself, evaluated twice
-                a, b = g.window()
-                case = dict(case, ctx=ctx, warm=[(a, b, False)] + ([(a, b if b is not None else 9, True)] if rng.random() < 0.3 else []))
+                case = with_context(g, rng, case)
             yield case
 
     def run_impl(self, case):
@@ -115,6 +100,25 @@ class ExprFamily(Family):
 
     def perturb(self, case, rng):
         return perturb(case, rng)
+
+
+def with_context(g, rng, case):
+    """The expression is ALSO part of a larger expression (sharing the very objects), and that one is
+    evaluated first: composing or evaluating must not change what a sub-expression answers
+    afterwards (the model only sees the sub-expression)."""
+    t = case["tree"]
+    other = g.tree(rng.choice([0, 1]), ["or", "and", "sub"])
+    j = rng.random()
+    if j < 0.45:
+        ctx = {"op": rng.choice(["or", "and", "sub"]), "l": t, "r": other}
+    elif j < 0.6:
+        ctx = {"op": rng.choice(["or", "and"]), "l": other, "r": t}
+    elif j < 0.8:
+        ctx = {"op": "or", "l": {"op": "and", "l": t, "r": other}, "r": {"op": "and", "l": t, "r": g.leaf()}}
+    else:
+        ctx = t                                   # the expression itself, evaluated twice
+    a, b = g.window()
+    return dict(case, ctx=ctx, warm=[(a, b, False)] + ([(a, b if b is not None else 9, True)] if rng.random() < 0.3 else []))
 
 
 def walk(t):
